@@ -6,13 +6,35 @@ import json
 from . import core
 
 
-def construct(ver, s):
+WARM_OPS = {"2": "svcrtejkJK", "3": "svcnrtejkJK", "4": "svcnrjkJK"}
+
+
+def warm_calls(s):
+    """a deterministic (function of the string) short sequence of accessor calls, for ~30% of the strings:
+    observables must not depend on which accessors were called before (replays reproduce it from the string)"""
+    import zlib
+    h = zlib.crc32(s.encode("utf-8", "surrogatepass"))
+    if h % 10 >= 3:
+        return []
+    n = 1 + (h >> 4) % 3
+    return [(h >> (8 + 5 * i)) % 11 for i in range(n)]
+
+
+def construct(ver, s, warm=False):
     """(object, None) or (None, canonical error name)"""
     im = core.impl()
     try:
-        return im.cls[ver](s), None
+        o = im.cls[ver](s)
     except Exception as e:  # noqa
         return None, core.err_name(ver, e)
+    if warm:
+        ops = WARM_OPS[ver]
+        for k in warm_calls(s):
+            try:
+                core.obs_field(ver, o, ops[k % len(ops)])
+            except Exception:  # noqa  (a raising accessor is reported by the oracles themselves)
+                pass
+    return o, None
 
 
 def observe(ver, o, what="svcnrte"):
